@@ -93,7 +93,7 @@ func main() {
 
 func needs(src []byte) bool {
 	s := string(src)
-	for _, k := range []string{"sync.Mutex", "sync.RWMutex", "\"sync/atomic\"", "go func", "\tgo ", "chan ", "select {", "*Compiled)", "v.globals["} {
+	for _, k := range []string{"func (o *Array) IndexSet", "func builtinSplice(", "sync.Mutex", "sync.RWMutex", "\"sync/atomic\"", "go func", "\tgo ", "chan ", "select {", "*Compiled)", "v.globals["} {
 		if strings.Contains(s, k) {
 			return true
 		}
@@ -108,6 +108,7 @@ type rw struct {
 	recv    string // receiver name of the current *Compiled method ("" otherwise)
 	inVM    bool
 	tmp     int
+	aliases map[string]bool // local variables that hold <recv>.globals (same backing array)
 }
 
 func sel(x, name string) *ast.SelectorExpr {
@@ -163,6 +164,7 @@ func rewrite(name string, src []byte) ([]byte, bool, error) {
 			continue
 		}
 		r.recv, r.inVM = "", false
+		r.aliases = map[string]bool{}
 		if fd.Recv != nil && len(fd.Recv.List) == 1 && len(fd.Recv.List[0].Names) == 1 {
 			if st, ok := fd.Recv.List[0].Type.(*ast.StarExpr); ok {
 				if id, ok := st.X.(*ast.Ident); ok {
@@ -177,6 +179,7 @@ func rewrite(name string, src []byte) ([]byte, bool, error) {
 			}
 		}
 		r.block(fd.Body)
+		r.containerTouch(fd)
 	}
 	if !r.changed {
 		return nil, false, nil
@@ -325,6 +328,133 @@ func (r *rw) touches(n ast.Node, isAssign bool, lhs []ast.Expr) (pre []ast.Stmt)
 	return
 }
 
+// containerTouch annotates the methods of the mutable container types (and the builtins that mutate
+// containers in place) with accesses to the container's contents, so that the happens-before checker
+// sees e.g. a Copy (read) racing with an IndexSet (write) on the same array.
+func (r *rw) containerTouch(fd *ast.FuncDecl) {
+	touch := func(obj string, write bool) ast.Stmt {
+		w := "false"
+		if write {
+			w = "true"
+		}
+		return &ast.ExprStmt{X: call(sel("vsched", "TouchField"), ast.NewIdent(obj), &ast.BasicLit{Kind: token.STRING, Value: `"Value"`}, ast.NewIdent(w))}
+	}
+	if fd.Recv != nil && len(fd.Recv.List) == 1 && len(fd.Recv.List[0].Names) == 1 {
+		st, ok := fd.Recv.List[0].Type.(*ast.StarExpr)
+		if !ok {
+			return
+		}
+		id, ok := st.X.(*ast.Ident)
+		if !ok {
+			return
+		}
+		switch id.Name {
+		case "Array", "Map", "ImmutableArray", "ImmutableMap":
+		default:
+			return
+		}
+		recv := fd.Recv.List[0].Names[0].Name
+		switch fd.Name.Name {
+		case "IndexSet":
+			fd.Body.List = append([]ast.Stmt{touch(recv, true)}, fd.Body.List...)
+			r.changed = true
+		case "Copy", "IndexGet", "Equals", "String", "Iterate", "BinaryOp", "IsFalsy":
+			fd.Body.List = append([]ast.Stmt{touch(recv, false)}, fd.Body.List...)
+			r.changed = true
+		}
+		return
+	}
+	// builtins that mutate their first argument in place
+	switch fd.Name.Name {
+	case "builtinSplice", "builtinDelete":
+		var walk func(list []ast.Stmt) []ast.Stmt
+		walk = func(list []ast.Stmt) []ast.Stmt {
+			var out []ast.Stmt
+			for _, st := range list {
+				switch x := st.(type) {
+				case *ast.AssignStmt:
+					if x.Tok == token.ASSIGN && len(x.Lhs) == 1 {
+						if se, ok := x.Lhs[0].(*ast.SelectorExpr); ok && se.Sel.Name == "Value" {
+							if id, ok := se.X.(*ast.Ident); ok {
+								out = append(out, touch(id.Name, true))
+								r.changed = true
+							}
+						}
+					}
+				case *ast.ExprStmt:
+					if c, ok := x.X.(*ast.CallExpr); ok {
+						if f, ok := c.Fun.(*ast.Ident); ok && f.Name == "delete" && len(c.Args) == 2 {
+							if se, ok := c.Args[0].(*ast.SelectorExpr); ok && se.Sel.Name == "Value" {
+								if id, ok := se.X.(*ast.Ident); ok {
+									out = append(out, touch(id.Name, true))
+									r.changed = true
+								}
+							}
+						}
+					}
+				case *ast.IfStmt:
+					x.Body.List = walk(x.Body.List)
+				case *ast.SwitchStmt:
+					for _, c := range x.Body.List {
+						cc := c.(*ast.CaseClause)
+						cc.Body = walk(cc.Body)
+					}
+				case *ast.TypeSwitchStmt:
+					for _, c := range x.Body.List {
+						cc := c.(*ast.CaseClause)
+						cc.Body = walk(cc.Body)
+					}
+				}
+				out = append(out, st)
+			}
+			return out
+		}
+		fd.Body.List = walk(fd.Body.List)
+	}
+}
+
+// aliasTouches annotates element accesses through local aliases of <recv>.globals.
+func (r *rw) aliasTouches(n ast.Node, lhs []ast.Expr) (pre []ast.Stmt) {
+	if len(r.aliases) == 0 {
+		return nil
+	}
+	written := map[ast.Node]bool{}
+	seen := map[string]bool{}
+	add := func(name string, write bool) {
+		k := fmt.Sprint(name, write)
+		if seen[k] {
+			return
+		}
+		seen[k] = true
+		w := "false"
+		if write {
+			w = "true"
+		}
+		pre = append(pre, &ast.ExprStmt{X: call(sel("vsched", "TouchSlice"), ast.NewIdent(name), ast.NewIdent(w))})
+		r.changed = true
+	}
+	for _, l := range lhs {
+		if ix, ok := l.(*ast.IndexExpr); ok {
+			if id, ok := ix.X.(*ast.Ident); ok && r.aliases[id.Name] {
+				add(id.Name, true)
+				written[ix] = true
+			}
+		}
+	}
+	ast.Inspect(n, func(x ast.Node) bool {
+		if _, ok := x.(*ast.FuncLit); ok {
+			return false
+		}
+		if ix, ok := x.(*ast.IndexExpr); ok && !written[ix] {
+			if id, ok := ix.X.(*ast.Ident); ok && r.aliases[id.Name] {
+				add(id.Name, false)
+			}
+		}
+		return true
+	})
+	return
+}
+
 func (r *rw) stmts(list []ast.Stmt) []ast.Stmt {
 	var out []ast.Stmt
 	for _, s := range list {
@@ -413,6 +543,10 @@ func (r *rw) stmt(s ast.Stmt) []ast.Stmt {
 		return append(pre, x)
 	case *ast.RangeStmt:
 		pre := r.header(x.X)
+		if id, ok := x.X.(*ast.Ident); ok && r.aliases[id.Name] {
+			pre = append(pre, &ast.ExprStmt{X: call(sel("vsched", "TouchSlice"), ast.NewIdent(id.Name), ast.NewIdent("false"))})
+			r.changed = true
+		}
 		// ranging over <recv>.globals reads its elements
 		if se, ok := x.X.(*ast.SelectorExpr); ok && r.recv != "" && se.Sel.Name == "globals" {
 			if id, ok := se.X.(*ast.Ident); ok && id.Name == r.recv {
@@ -493,6 +627,19 @@ func (r *rw) stmt(s ast.Stmt) []ast.Stmt {
 			pre = append(pre, t...)
 			r.changed = true
 		}
+		// g := c.globals makes g an alias of the shared backing array
+		if r.recv != "" && len(x.Lhs) == len(x.Rhs) {
+			for i, rhs := range x.Rhs {
+				if se, ok := rhs.(*ast.SelectorExpr); ok && se.Sel.Name == "globals" {
+					if id, ok := se.X.(*ast.Ident); ok && id.Name == r.recv {
+						if l, ok := x.Lhs[i].(*ast.Ident); ok {
+							r.aliases[l.Name] = true
+						}
+					}
+				}
+			}
+		}
+		pre = append(pre, r.aliasTouches(x, x.Lhs)...)
 		r.funcLits(x)
 		return append(pre, x)
 	case *ast.ExprStmt, *ast.ReturnStmt, *ast.IncDecStmt, *ast.DeclStmt:
